@@ -21,6 +21,9 @@ import (
 const (
 	peersDefaultPath = "peers"
 	peersVersion     = uint8(0)
+
+	// minPeerSerializeSize is the serialized size of a peer with an empty address.
+	minPeerSerializeSize = 12
 )
 
 type Peer struct {
@@ -185,7 +188,12 @@ func (repo *StoragePeerRepository) Load(ctx context.Context) error {
 	}
 
 	// Reset
-	repo.list = make(PeerList, 0, count)
+	// The count is only a capacity hint, so don't trust it beyond what the data can contain.
+	capacity := int(count)
+	if capacity < 0 || capacity > buffer.Len()/minPeerSerializeSize {
+		capacity = buffer.Len() / minPeerSerializeSize
+	}
+	repo.list = make(PeerList, 0, capacity)
 
 	// Parse peers
 	for {
@@ -254,13 +262,17 @@ func (repo *StoragePeerRepository) Clear(ctx context.Context) error {
 	return repo.store.Remove(ctx, repo.path)
 }
 
-func readPeer(r io.Reader, version uint8) (Peer, error) {
+func readPeer(r *bytes.Buffer, version uint8) (Peer, error) {
 	result := Peer{}
 
 	// Read address
 	var addressSize int32
 	if err := binary.Read(r, binary.LittleEndian, &addressSize); err != nil {
 		return result, err
+	}
+
+	if addressSize < 0 || int(addressSize) > r.Len() {
+		return result, errors.New("Invalid address size")
 	}
 
 	addressData := make([]byte, addressSize)
